@@ -54,3 +54,54 @@ Print Assumptions C06_relative_keeps_scheme.
 Theorem C06_parse_results_are_wfb : forall c b, Inv c b -> wfb b.
 Proof. exact Inv_wfb. Qed.
 Print Assumptions C06_parse_results_are_wfb.
+
+(* "for every parsed URL u and every base: the serialization of u resolves to u itself against any base"
+   (Proofs/TransitionGraph.v, SelfResolve.v). The run on a serialization differs with and without a base in at most one
+   step (Scheme at the colon: SpecialRelativeOrAuthority instead of SpecialAuthoritySlashes when the base has the same
+   special scheme; both continue alike on "//"); after that the run stays in states that never read the base
+   (run_base_insensitive over the transition graph). No hypothesis on the base. *)
+From Verif Require Import Model.Preds Proofs.MachineInv Proofs.RoundTripBase Proofs.RoundTrip Proofs.RoundTripParse Proofs.HostProofs Proofs.SelfResolve.
+
+(* any record with the invariant of C04 (every reachable URL): its serialization parses alike against every base ... *)
+Theorem C06_self_resolution_base_irrelevant : forall idna_raw c u s b,
+  isSpecialScheme c s_file = true -> Inv c u -> Href u false = Some s ->
+  UrlParse idna_raw c b s = Parse idna_raw c s.
+Proof. exact self_resolution_inv. Qed.
+Print Assumptions C06_self_resolution_base_irrelevant.
+
+(* ... and, with the round trip of C03, resolves to the record itself *)
+Theorem C06_self_resolution : forall idna_raw c, cfg_rt c = true -> forall u s b,
+  Inv c u -> Stable idna_raw c u -> Href u false = Some s ->
+  UrlParse idna_raw c b s = PUrl (rt_url u s).
+Proof. exact self_resolution_strong. Qed.
+Print Assumptions C06_self_resolution.
+
+(* everything Parse returns, against every base value; host_fixed is the IDNA residue of C03 (known finding D6) *)
+Theorem C06_parse_self_resolution : forall idna_raw, H3 idna_raw -> forall c, cfg_okm c = true -> cfg_rt c = true ->
+  forall x u, Parse idna_raw c x = PUrl u -> host_fixed idna_raw c u ->
+  forall b, exists s u', Href u false = Some s /\ UrlParse idna_raw c b s = PUrl u' /\ same_components u' u.
+Proof. exact parse_self_resolution. Qed.
+Print Assumptions C06_parse_self_resolution.
+
+(* ... and through the entry point that takes the base as a string *)
+Theorem C06_parse_self_resolution_ParseRef : forall idna_raw, H3 idna_raw -> forall c, cfg_okm c = true -> cfg_rt c = true ->
+  forall x u rawBase b, Parse idna_raw c x = PUrl u -> host_fixed idna_raw c u -> Parse idna_raw c rawBase = PUrl b ->
+  exists s u', Href u false = Some s /\ ParseRef idna_raw c rawBase s = PUrl u' /\ same_components u' u.
+Proof. exact parse_self_resolution_ParseRef. Qed.
+Print Assumptions C06_parse_self_resolution_ParseRef.
+
+(* results of a resolution qualify as well (no round-trip hypothesis needed for base-irrelevance) *)
+Theorem C06_resolved_self_resolution : forall idna_raw, H3 idna_raw -> forall c, cfg_okm c = true ->
+  forall b0 ref u, isSpecialScheme c s_file = true -> Inv c b0 -> UrlParse idna_raw c b0 ref = PUrl u ->
+  exists s, Href u false = Some s /\ forall b, UrlParse idna_raw c b s = Parse idna_raw c s.
+Proof. exact resolved_self_resolution_eq. Qed.
+Print Assumptions C06_resolved_self_resolution.
+
+(* the one configuration premise is needed: when "file" is not a special scheme a hostless file record satisfies the
+   invariant and its serialization "file:/p" takes the host of a file base *)
+Theorem C06_self_resolution_file_special_needed :
+  exists idna_raw c u s b, Inv c u /\ Inv c b /\ Href u false = Some s /\
+    UrlParse idna_raw c b s <> Parse idna_raw c s.
+Proof. exact file_special_needed. Qed.
+Print Assumptions C06_self_resolution_file_special_needed.
+
